@@ -9,12 +9,12 @@
 #include "common.h"
 #include "generated/cjet_config.h"
 
-static const char *const REQ_TO[] = {NULL, "0.0005", "0.001", "0.25", "2", "\"x\"", "-1", "1e30", "0", "true", "0.0009999", "5.5"};
-static const double REQ_TO_V[] = {0, 0.0005, 0.001, 0.25, 2, -2, -1, 1e30, 0, -2, 0.0009999, 5.5}; /* -2 = not a number */
-#define NREQ_TO 12
-static const char *const EL_TO[] = {NULL, "1.5", "0.0005", "\"x\"", "0.002"};
-static const double EL_TO_V[] = {0, 1.5, 0.0005, -2, 0.002};
-#define NEL_TO 5
+static const char *const REQ_TO[] = {NULL, "0.0005", "0.001", "0.25", "2", "\"x\"", "-1", "1e30", "0", "true", "0.0009999", "5.5", "1.8e10", "2e10", "1e12", "1e15", "1.8e19", "1e20"};
+static const double REQ_TO_V[] = {0, 0.0005, 0.001, 0.25, 2, -2, -1, 1e30, 0, -2, 0.0009999, 5.5, 1.8e10, 2e10, 1e12, 1e15, 1.8e19, 1e20}; /* -2 = not a number; the last six lie around 2^64 ns and 2^64 s */
+#define NREQ_TO 18
+static const char *const EL_TO[] = {NULL, "1.5", "0.0005", "\"x\"", "0.002", "1e12"};
+static const double EL_TO_V[] = {0, 1.5, 0.0005, -2, 0.002, 1e12};
+#define NEL_TO 6
 
 static void fail_t(const char *key, const char *fmt, ...) __attribute__((noreturn, format(printf, 2, 3)));
 static void fail_t(const char *key, const char *fmt, ...)
@@ -133,7 +133,7 @@ static void run_values(void)
 	}
 	double secs = rq_given ? REQ_TO_V[rt] : (EL_TO[et] ? EL_TO_V[et] : 5.0);
 	/* the daemon converts seconds to nanoseconds with (uint64_t)(seconds * 1e9): compute the same way; allow one ns of rounding */
-	bool huge = secs > 1e12;
+	bool huge = secs * 1000000000.0 >= 1.8e19; /* beyond what 64 bit of nanoseconds hold (from about 584 years on): effectively never */
 	uint64_t want_ns = huge ? 0 : (uint64_t)(secs * 1000000000.0);
 	if (count_routed(O, fromO) != 1) {
 		char key[120];
@@ -550,6 +550,6 @@ const struct driver drv_c14 = {
     .name = "c14",
     .property = "C14",
     .run = run,
-    .rule = "section 0: product {12 request timeout forms} x {5 element timeout forms} x {set, call} x {expiry + late reply, reply 1 ns before the deadline, two requests with different deadlines} x caller transport on the virtual clock (deadline - 1 ns: nothing; deadline: exactly one error in that iteration); section 1: every non-empty subset of {owner reply, expiry, caller gone, owner gone, second request's expiry, a fresh request of the second caller} made ready at the same instant x every dispatch order x every split of the batch into two iterations x transports x FIN/reset x {the owner still owns the element, the owner removed it while the requests were in flight}; afterwards a new peer connects and everybody leaves; section 2: a silent owner gets between half and more than its in-flight limit of requests with equal or staggered deadlines; the refused ones are never answered again, the accepted ones exactly at their own deadline, late replies have no effect; every execution is non-trivial",
+    .rule = "section 0: product {18 request timeout forms, six of them around 2^64 ns and 2^64 s} x {6 element timeout forms} x {set, call} x {expiry + late reply, reply 1 ns before the deadline, two requests with different deadlines} x caller transport on the virtual clock (deadline - 1 ns: nothing; deadline: exactly one error in that iteration); section 1: every non-empty subset of {owner reply, expiry, caller gone, owner gone, second request's expiry, a fresh request of the second caller} made ready at the same instant x every dispatch order x every split of the batch into two iterations x transports x FIN/reset x {the owner still owns the element, the owner removed it while the requests were in flight}; afterwards a new peer connects and everybody leaves; section 2: a silent owner gets between half and more than its in-flight limit of requests with equal or staggered deadlines; the refused ones are never answered again, the accepted ones exactly at their own deadline, late replies have no effect; every execution is non-trivial",
     .assumptions = "the deadline is compared with (uint64_t)(seconds*1e9) +- 1 ns|timeouts above 1e12 s are only required to arm a timer of at least 1e15 ns|the simulated epoll reports whatever order the explorer picks for descriptors that became ready in the same instant (Linux gives no ordering guarantee)",
 };
